@@ -428,7 +428,7 @@ class SeqRun:
 IMPL_TIMEOUT = 60      # seconds per script on the real library (normal scripts run in well under a second)
 
 
-def run_script(tag, ops, name="s"):
+def run_script(tag, ops, name="s", spec_only=False):
     """returns SeqRun with per-op records of both sides, or .error"""
     r = SeqRun()
     r.ops = [o for o in ops if o and not o.startswith("#")]
@@ -450,7 +450,7 @@ def run_script(tag, ops, name="s"):
     impl_lines = out.split("\n")
     if impl_lines and impl_lines[-1] == "":
         impl_lines.pop()
-    rc, out = C.sh([os.path.join(C.BUILD, "seq_main"), sf], timeout=900, merge=False)
+    rc, out = C.sh([os.path.join(C.BUILD, "seq_main"), sf] + (["spec"] if spec_only else []), timeout=900, merge=False)
     if rc != 0:
         r.error = "model driver exited %d" % rc
         return r
@@ -765,6 +765,61 @@ def scripts_phase(res, tag, scripts, categories, label):
         name, cat, why, ops, i = (orac or bad)[0]
         res.violation("%s: %s" % (cat, why[:300]), dict(kind="seq-" + cat, script=ops, why=why, tag=tag, categories=list(categories)),
                       nofail=not orac)
+
+
+def gen_longkey_scripts(rng, tier):
+    """keys up to the documented 30 KiB (one trie layer per 8 bytes: thousands of layers), judged by the Spec alone"""
+    out = []
+    for n in range(3 if tier == "quick" else 10):
+        ops = ["init", "enter", "create 73"]
+        L = rng.choice([8192, 20000, 30000, 30 * 1024])
+        base = bytes(rng.choice([0x41, 0x00, 0xff]) for _ in range(1)) * L
+        keys = [base, base[:-1] + b"B", base[:-1], base[:L // 2] + b"x", base[:16] + b"z", base[:8], base[:9], b"short"]
+        rng.shuffle(keys)
+        for i, k in enumerate(keys):
+            ops.append("put 73 %s %s 8 %d 0" % (hx(k), hx(b"v%d" % i), int(rng.random() < 0.2)))
+        for k in keys[:4]:
+            ops.append("get 73 %s" % hx(k))
+        ops.append("scan 73 - INF - INF 0 0")
+        ops.append("scan 73 %s IN %s EX 0 0" % (hx(base[:20]), hx(base[:-1] + b"C")))
+        ops.append("iscan 73 %s EX - INF %d" % (hx(base[:L // 2]), rng.randrange(2)))
+        ops.append("put 73 %s %s 8 0 0" % (hx(keys[0]), hx(b"overwritten")))
+        ops.append("get 73 %s" % hx(keys[0]))
+        for k in keys[:5]:
+            ops.append("rem 73 %s" % hx(k))
+        ops.append("get 73 %s" % hx(keys[0]))
+        ops.append("scan 73 - INF - INF 0 0")
+        ops += ["leave", "fin"]
+        out.append(("long%d" % n, ops))
+    return out
+
+
+def longkey_phase(res, tag):
+    """implementation vs the Spec only (no slot-level model) on keys up to 30 KiB"""
+    import random
+    ok, msg = build(tag)
+    if not ok:
+        res.violation(msg[:300], dict(kind="build-failure", log=msg[-4000:]), nofail=True)
+        return
+    scripts = gen_longkey_scripts(random.Random(res.seed + 77), res.tier)
+    nops = 0
+    bad = []
+    for name, ops in scripts:
+        r = run_script(tag, ops, name=name, spec_only=True)
+        if r.error:
+            bad.append(("crash", r.error, ops))
+            continue
+        nops += len(r.ops)
+        c = compare(r, [])
+        for i in c["oracle"]:
+            bad.append(("oracle", "result differs from the specification at `%s...`: %s (spec: %s)" % (
+                r.ops[i][:60], r.impl[i][:200], (r.spec[i] or "")[:200]), ops))
+    res.cov["long_key_scripts"] = dict(scripts=len(scripts), operations=nops, max_key_bytes=30 * 1024, oracle="extracted Spec only",
+                                       failures=len(bad))
+    res.cov["programs"] = res.cov.get("programs", 0) + len(scripts)
+    if bad:
+        cat, why, ops = bad[0]
+        res.violation("long keys: %s" % why[:300], dict(kind="seq-" + cat, script=[o[:200] for o in ops], why=why, tag=tag, categories=[]))
 
 
 # ------------------------------------------------------------------ property runner
